@@ -162,6 +162,12 @@ SET_METHODS = {"difference", "union", "intersection", "symmetric_difference"}
 NP_RANDOM_OK = {"default_rng", "Generator", "SeedSequence", "PCG64", "BitGenerator"}
 
 
+# library calls that return a Python set filled in an order that depends on the library's per-process hash state (rustworkx: Rust HashSet):
+# the content is deterministic, the iteration order is not - not even under a fixed PYTHONHASHSEED (finding F13)
+LIB_SET_CALLS = {"rx.descendants", "rx.ancestors", "rustworkx.descendants", "rustworkx.ancestors"}
+ORDER_EXPOSING = {"list", "tuple", "enumerate", "iter", "next", "reversed", "zip", "map", "np.array", "np.asarray", "np.fromiter"}
+
+
 def _is_set_expr(e, set_vars):
     if isinstance(e, (ast.Set, ast.SetComp)):
         return True
@@ -169,7 +175,7 @@ def _is_set_expr(e, set_vars):
         return True
     if isinstance(e, ast.Call):
         d = _dotted(e.func)
-        if d in SET_BUILDERS:
+        if d in SET_BUILDERS or d in LIB_SET_CALLS:
             return True
         if isinstance(e.func, ast.Attribute) and e.func.attr in SET_METHODS:
             return True
@@ -199,6 +205,11 @@ def scan_file(root, rel):
             for it in its:
                 if _is_set_expr(it, set_vars):
                     bad_set.append("%s:%d `%s`" % (rel, it.lineno, ast.unparse(it)[:60]))
+            # conversions that turn the iteration order of a set into a sequence order
+            if isinstance(n, ast.Call) and _dotted(n.func) in ORDER_EXPOSING and any(_is_set_expr(a, set_vars) for a in n.args):
+                bad_set.append("%s:%d `%s`" % (rel, n.lineno, ast.unparse(n)[:60]))
+            if isinstance(n, (ast.List, ast.Tuple)) and any(isinstance(e, ast.Starred) and _is_set_expr(e.value, set_vars) for e in n.elts):
+                bad_set.append("%s:%d `%s`" % (rel, n.lineno, ast.unparse(n)[:60]))
     for n in ast.walk(tree):
         if isinstance(n, ast.Call):
             d = _dotted(n.func)
@@ -214,7 +225,7 @@ def scan_file(root, rel):
                 bad_clock.append("%s:%d %s" % (rel, n.lineno, d))
     out = [("no-global-numpy-rng[%s]" % rel, not bad_rng, "no call of a numpy global-state random function (%s)" % (bad_rng or "none")),
            ("scipy-rvs-pass-random_state[%s]" % rel, not bad_rvs, "every .rvs() call passes random_state (%s)" % (bad_rvs or "none")),
-           ("no-iteration-over-hash-ordered-collections[%s]" % rel, not bad_set, "no loop / comprehension iterates a set, frozenset or set-algebra result (%s)" % (bad_set or "none")),
+           ("no-iteration-over-hash-ordered-collections[%s]" % rel, not bad_set, "no loop / comprehension / list() conversion exposes the iteration order of a set, frozenset, set-algebra result or set-valued library call such as rx.descendants (%s)" % (bad_set or "none")),
            ("no-ambient-entropy-or-clock[%s]" % rel, not bad_clock and not imports_random, "no stdlib random, wall clock, pid or urandom call (%s)" % (bad_clock or "none"))]
     # the one allowed unseeded generator: run.instantiate_and_seed_RNG, else-branch of `seed is not None`
     if unseeded:
